@@ -170,24 +170,82 @@ pub fn seeds_with_first_f_vanishing_at(n: usize, count: u64, root_indices: &[usi
 /// squared Gram-Schmidt norm bound test of key generation (specification Algorithm 5, line 9) on (f, g),
 /// computed with a naive complex DFT: true when gamma <= 1.17^2 q
 pub fn passes_gamma(f: &[i64], g: &[i64]) -> bool {
+    let (a, b) = gamma_parts(f, g);
+    a.max(b) <= 1.3689 * 12289.0
+}
+
+/// (||(g,-f)||^2, ||(q f*/(ff*+gg*), q g*/(ff*+gg*))||^2): the two quantities whose maximum key generation
+/// compares with 1.17^2 q (naive DFT with a sine/cosine table)
+pub fn gamma_parts(f: &[i64], g: &[i64]) -> (f64, f64) {
     let n = f.len();
     let q = 12289.0f64;
     let norm1: f64 = f.iter().chain(g.iter()).map(|&x| (x * x) as f64).sum();
+    let table: Vec<(f64, f64)> = (0..2 * n).map(|t| (std::f64::consts::PI * t as f64 / n as f64).sin_cos()).collect();
     let mut acc = 0.0f64;
     for k in 0..n {
-        let ang = std::f64::consts::PI * ((2 * k + 1) as f64) / (n as f64);
         let (mut fr, mut fi, mut gr, mut gi) = (0.0f64, 0.0f64, 0.0f64, 0.0f64);
+        let step = 2 * k + 1;
+        let mut idx = 0usize;
         for j in 0..n {
-            let (s, c) = (ang * j as f64).sin_cos();
+            let (s, c) = table[idx];
             fr += f[j] as f64 * c;
             fi += f[j] as f64 * s;
             gr += g[j] as f64 * c;
             gi += g[j] as f64 * s;
+            idx = (idx + step) % (2 * n);
         }
         acc += 1.0 / (fr * fr + fi * fi + gr * gr + gi * gi);
     }
-    let norm2 = q * q * acc / (n as f64);
-    norm1.max(norm2) <= 1.3689 * q
+    (norm1, q * q * acc / (n as f64))
+}
+
+/// The (f, g) candidates key generation draws from seed LE64(i), in order, up to and including the first that is
+/// invertible and within the Gram-Schmidt bound: (invertible, max of the two norms) per candidate. Steering only.
+pub fn candidate_walk(n: usize, seed: u64, cap: usize) -> Vec<(bool, f64)> {
+    use rand::SeedableRng;
+    let mut rng = rand::rngs::StdRng::from_seed(seed_bytes(seed));
+    let sigma_star = 1.43300980528773;
+    let roots = crate::refmodel::poly::roots(n);
+    let mut out = vec![];
+    while out.len() < cap {
+        let mut poly = |rng: &mut rand::rngs::StdRng| -> Vec<i64> {
+            let samples: Vec<i64> = (0..4096).map(|_| falcon_rust::verif_hooks::sampler_z(0.0, sigma_star, sigma_star - 0.001, rng) as i64).collect();
+            samples.chunks(4096 / n).map(|c| c.iter().sum()).collect()
+        };
+        let f = poly(&mut rng);
+        let g = poly(&mut rng);
+        let invertible = !crate::refmodel::poly::eval_at_roots(&f, &roots).iter().any(|&x| x == 0);
+        let (a, b) = gamma_parts(&f, &g);
+        let gamma = a.max(b);
+        out.push((invertible, gamma));
+        if invertible && gamma <= 1.3689 * 12289.0 {
+            break;
+        }
+    }
+    out
+}
+
+/// seeds in [from, from+count) on which key generation meets an invertible candidate whose Gram-Schmidt quantity
+/// lies in (bound, bound + width] before (or instead of) the one it accepts: a norm test that is slightly too
+/// lenient accepts exactly these
+pub fn gamma_near_miss_scan(n: usize, from: u64, count: u64, width: f64) -> Vec<(u64, f64)> {
+    use rayon::prelude::*;
+    let bound = 1.3689 * 12289.0;
+    (from..from + count)
+        .into_par_iter()
+        .filter_map(|s| candidate_walk(n, s, 64).iter().find(|(inv, g)| *inv && *g > bound && *g <= bound + width).map(|c| (s, c.1)))
+        .collect()
+}
+
+/// Seeds LE64(i) found with `falcon-mc diag gammascan` on the repaired tree: an invertible candidate with
+/// Gram-Schmidt quantity in (1.17^2 q, 1.17^2 q + 1] is drawn and must be rejected.
+pub fn gamma_near_miss_seeds(n: usize) -> Vec<u64> {
+    match n {
+        // 16823 exactly (integer norm of (g,-f)), dual norm 16822.43 and 16822.70, 16823
+        512 => vec![542, 1449, 1643, 910, 543, 2301],
+        // ||(g,-f)||^2 = 16823 exactly
+        _ => vec![196, 286, 618, 887, 987],
+    }
 }
 
 /// as `seeds_with_first_f_vanishing_at`, keeping only candidates that also pass the Gram-Schmidt norm
